@@ -10,6 +10,7 @@ modelled); operations that abort or are undefined in C/GMP for some operands are
 Core Lean only.
 -/
 import SqiModel.Intbig
+import SqiModel.NumberTheory
 namespace SqiModel.CProg
 open SqiModel.Intbig
 
@@ -50,6 +51,20 @@ abbrev ulShl (x k : Int) : Option Int := if 0 ≤ k ∧ k < 64 then some (x * 2 
 /-- C `x >> k` on a 64-bit unsigned word: undefined for k ∉ [0, 64) -/
 abbrev ulShr (x k : Int) : Option Int := if 0 ≤ k ∧ k < 64 then some (x / 2 ^ k.toNat) else none
 
+/-! ### the ibz layer (wrappers of intbig.c used by integers.c) -/
+abbrev ibz_set (k : Int) : Int := k
+abbrev ibz_copy (a : Int) : Int := a
+abbrev ibz_add (a b : Int) : Int := a + b
+abbrev ibz_sub (a b : Int) : Int := a - b
+abbrev ibz_mul (a b : Int) : Int := a * b
+abbrev ibz_cmp (a b : Int) : Int := (a - b).sign
+abbrev ibz_is_one (a : Int) : Int := if a = 1 then 1 else 0
+abbrev ibz_is_zero (a : Int) : Int := if a = 0 then 1 else 0
+/-- `ibz_sqrt(sqrt, a)` (mpz_perfect_square_p + mpz_sqrt): primitive, modelled by `SqiModel.NumberTheory.ibzSqrt` -/
+abbrev ibz_sqrt (_out a : Int) : Res Int := SqiModel.NumberTheory.ibzSqrt a
+/-- `ibz_div(q, r, a, b)` = `mpz_tdiv_qr`; division by zero raises SIGFPE -/
+abbrev ibz_div (a b : Int) : Option (Int × Int) := if b = 0 then none else some (a.tdiv b, a.tmod b)
+
 /-- conversion to `mp_limb_t` / `unsigned long` (wraps modulo 2^64) -/
 abbrev ulOfInt (x : Int) : Int := x % 2 ^ 64
 /-- `randombytes(buf, n)` over an explicit byte stream: `none` = the generator failed (stream exhausted);
@@ -69,6 +84,11 @@ abbrev mpz_roinit_n (r n : Int) : Int := r
 def whileFuel {σ : Type} (cond : σ → Bool) (body : σ → σ) : Nat → σ → Option σ
   | 0, s => if cond s then none else some s
   | n + 1, s => if cond s then whileFuel cond body n (body s) else some s
+
+/-- `while (cond) body` whose body contains a partial operation (`none` = fuel exhausted or undefined step) -/
+def whileFuelO {σ : Type} (cond : σ → Bool) (body : σ → Option σ) : Nat → σ → Option σ
+  | 0, s => if cond s then none else some s
+  | n + 1, s => if cond s then (match body s with | none => none | some s' => whileFuelO cond body n s') else some s
 
 /-- `for (int i = 0; i < n; ++i) body` where the body does not use i -/
 def forN {σ : Type} (body : σ → σ) : Nat → σ → σ
